@@ -368,6 +368,12 @@ func (g *Gen) readPath(t *Type) Expr {
 			if exprHasAtomicRoot(q.e) {
 				continue
 			}
+			if q.root != nil && q.root.Kind == VGlobal && (q.root.Space == "storage" || q.root.Space == "uniform") && containsStruct(t) {
+				if !g.on("read.struct-from-buffer") {
+					continue
+				}
+				g.feat("read.struct-from-buffer")
+			}
 			g.touch(q.root)
 			if q.root != nil {
 				g.feat("read." + spaceOf(q.root))
@@ -897,6 +903,9 @@ func (g *Gen) genFloat(depth int) Expr {
 	}
 	if r.Chance(1, 12) && g.allowTol {
 		n := r.Range(2, 4)
+		if n == 2 && !g.on("type.matCx2") {
+			n = 3
+		}
 		g.feat("fn.determinant")
 		return &Builtin{Name: "determinant", Args: []Expr{g.genExpr(g.U.Mat(n, n, F32), depth-1)}, Ty: F32}
 	}
@@ -952,7 +961,7 @@ func (g *Gen) genVec(t *Type, depth int) Expr {
 				g.feat("fn.cross")
 				return &Builtin{Name: "cross", Args: []Expr{g.genExpr(t, depth-1), g.genExpr(t, depth-1)}, Ty: t}
 			}
-			if r.Chance(1, 8) && g.allowTol && g.on("mat.mul") {
+			if r.Chance(1, 8) && g.allowTol && g.on("mat.mul") && (t.N != 2 || g.on("type.matCx2")) {
 				// matrix * vector (tolerant: sum order unspecified)
 				c := r.Range(2, 4)
 				g.feat("op.mat*vec")
@@ -1077,11 +1086,17 @@ func (g *Gen) genMat(t *Type, depth int) Expr {
 			}
 			return &Binary{Op: "*", L: g.genExpr(F32, depth-1), R: g.genExpr(t, depth-1), Ty: t}
 		case 2:
+			if t.N == 2 && !g.on("type.matCx2") {
+				return g.consLits(t)
+			}
 			g.feat("fn.transpose")
 			return &Builtin{Name: "transpose", Args: []Expr{g.genExpr(g.U.Mat(t.R, t.N, t.Elem), depth-1)}, Ty: t}
 		default:
 			if g.allowTol && g.on("mat.mul") {
 				k := r.Range(2, 4)
+				if k == 2 && !g.on("type.matCx2") {
+					k = 4
+				}
 				g.feat("op.mat*mat")
 				return &Binary{Op: "*", L: g.genExpr(g.U.Mat(k, t.R, F32), depth-1), R: g.genExpr(g.U.Mat(t.N, k, F32), depth-1), Ty: t}
 			}
@@ -1332,6 +1347,16 @@ func containsDynIndex(e Expr) bool {
 		return containsDynIndex(e.X)
 	case *Paren:
 		return containsDynIndex(e.X)
+	}
+	return false
+}
+
+func containsStruct(t *Type) bool {
+	switch t.Kind {
+	case KStruct:
+		return true
+	case KArray:
+		return containsStruct(t.Elem)
 	}
 	return false
 }
